@@ -73,6 +73,10 @@ class ConnectedStreamClient(_transports.AsyncBaseTransport, Generic[_T_Response]
         with self.__send_guard:
             await self.__transport.aclose()
 
+    async def _aclose_forcefully(self) -> None:
+        # Closes the transport abruptly, even if a send_packet() is in progress (aclose() would refuse with BusyResourceError).
+        await _transports_utils.aclose_forcefully(self.__transport)
+
     async def send_packet(self, packet: _T_Response) -> None:
         """
         Sends `packet` to the remote endpoint.
